@@ -438,3 +438,167 @@ def replay_block_prox(args, model):
     gap = obj(r) - obj(best)
     return dict(confirmed=bool(gap > 1e-9 * (1 + abs(obj(best)))), detail=f'prox={r} obj={obj(r)}; competitor {best} obj={obj(best)}; gap={gap}',
                 inputs=inputs)
+
+
+# ------------------------------------------------------------------ vector proxes, bounded in dimension (B)
+
+def slope_task(T, n):
+    """SLOPE.prox_vec: global minimiser of 0.5||u-x||^2 + s * sum_i alphas_i |u|_(i) (sorted-l1), n entries"""
+    import itertools
+    import z3
+    from pv import sym, symrun
+    from pv.sproof import check_contract, zpre
+    symrun.install()
+    SL = symrun.get('skglm.penalties.non_separable', 'SLOPE')
+    R = sym.SymReal
+    x = [z3.Real(f'x{i}') for i in range(n)]
+    v = [z3.Real(f'v{i}') for i in range(n)]
+    al = [z3.Real(f'al{i}') for i in range(n)]
+    s = z3.Real('s')
+    pre = zpre([s > 0] + [al[i] >= al[i + 1] for i in range(n - 1)] + [al[-1] >= 0])
+    # canonical orthant x_0 >= ... >= x_{n-1} >= 0; the other orthants/orderings follow from the symmetry of the
+    # objective (trusted lemma) and the equivariance of the code, which is the separate obligation `equivariant`
+    pre_c = pre + [x[i] >= x[i + 1] for i in range(n - 1)] + [x[-1] >= 0]
+
+    def sorted_l1(u):
+        """sum_i al_i |u|_(i) = max over permutations of sum_i al_i |u_pi(i)| (rearrangement inequality: al sorted)"""
+        au = [z3.If(t >= 0, t, -t) for t in u]
+        best = None
+        for perm in itertools.permutations(range(n)):
+            val = z3.Sum([al[i] * au[perm[i]] for i in range(n)])
+            best = val if best is None else z3.If(val >= best, val, best)
+        return best
+
+    def obj(u):
+        return z3.Sum([(u[i] - x[i]) * (u[i] - x[i]) for i in range(n)]) / 2 + s * sorted_l1(u)
+
+    def build():
+        pen = SL(np.array([R(a) for a in al], dtype=object))
+        return pen.prox_vec(np.array([R(t) for t in x], dtype=object), R(s))
+
+    def post(out, p):
+        r = [sym.lift(t) for t in out]
+        # split the competitor by sign pattern and by the ordering of its magnitudes: sorted-l1 becomes linear
+        cases = []
+        sq = lambda u: z3.Sum([(u[i] - x[i]) * (u[i] - x[i]) for i in range(n)]) / 2
+        for signs in itertools.product((1, -1), repeat=n):
+            av = [v[i] if signs[i] == 1 else -v[i] for i in range(n)]
+            sc = [v[i] >= 0 if signs[i] == 1 else v[i] < 0 for i in range(n)]
+            for perm in itertools.permutations(range(n)):
+                oc = [av[perm[i]] >= av[perm[i + 1]] for i in range(n - 1)]
+                lin = z3.Sum([al[i] * av[perm[i]] for i in range(n)])
+                tag = ''.join('+' if t == 1 else '-' for t in signs) + ''.join(map(str, perm))
+                cases.append((f'global-min[v:{tag}]', sc + oc, obj(r) <= sq(v) + s * lin))
+        return cases
+    T.cover('requires', pre_c)
+    check_contract(T, f'prox_vec[n={n}]', build, pre_c, post, strength='B',
+                   replay=dict(fn='contracts.c07:replay_slope', args=dict(n=n)))
+
+    # equivariance under sign flips and permutations of the input: prox_vec(T x) == T prox_vec(x)
+    for signs in itertools.product((1, -1), repeat=n):
+        for perm in itertools.permutations(range(n)):
+            if all(t == 1 for t in signs) and list(perm) == list(range(n)):
+                continue
+
+            def build2(signs=signs, perm=perm):
+                pen = SL(np.array([R(a) for a in al], dtype=object))
+                base = pen.prox_vec(np.array([R(t) for t in x], dtype=object), R(s))
+                tx = np.array([R(signs[i] * x[perm[i]]) for i in range(n)], dtype=object)
+                return base, pen.prox_vec(tx, R(s))
+            tag = ''.join('+' if t == 1 else '-' for t in signs) + ''.join(map(str, perm))
+            check_contract(T, f'prox_vec[n={n}]/equivariant[{tag}]', build2, pre_c,
+                           lambda out, p, signs=signs, perm=perm: [
+                               ('prox(Tx)==T.prox(x)', [], z3.And(*[sym.lift(out[1][i]) == signs[i] * sym.lift(out[0][perm[i]])
+                                                                  for i in range(n)]))],
+                           strength='B', safety=False, replay=dict(fn='contracts.c07:replay_slope', args=dict(n=n)))
+
+
+add_task('C07', 'non_separable:SLOPE.prox_vec[n=2]', slope_task, strength='B', n=2)
+add_task('C07', 'non_separable:SLOPE.prox_vec[n=3]', slope_task, strength='B', tier='thorough', n=3)
+
+
+def replay_slope(args, model):
+    import itertools
+    from skglm.penalties.non_separable import SLOPE
+    from skglm.utils.jit_compilation import compiled_clone
+    n = args['n']
+    x = np.array([_fl(model, f'x{i}') for i in range(n)])
+    al = np.array([_fl(model, f'al{i}', 1.0) for i in range(n)])
+    s = _fl(model, 's', 1.0)
+    v = np.array([_fl(model, f'v{i}') for i in range(n)])
+    obj = lambda u: 0.5 * np.sum((u - x) ** 2) + s * np.sum(np.sort(np.abs(u))[::-1] * al)
+    r = np.asarray(compiled_clone(SLOPE(al)).prox_vec(x.copy(), s))
+    cands = [v, np.zeros(n), x] + [np.array(c) for c in itertools.product(np.linspace(-2, 2, 41), repeat=n)] if n <= 2 else [v, np.zeros(n), x]
+    best = min(cands, key=obj)
+    gap = obj(r) - obj(best)
+    return dict(confirmed=bool(gap > 1e-9 * (1 + abs(obj(best)))), detail=f'prox={r.tolist()} obj={obj(r)}; competitor {best.tolist()} obj={obj(best)}',
+                inputs=dict(x=x.tolist(), alphas=al.tolist(), s=s))
+
+
+def numeric_prox_task(T, which):
+    """bounded numeric run-time contract (grid) for the three transcendental scalar proxes: the value returned by the
+    REAL function must minimise the prox objective against a brute-force search on a fine grid"""
+    from pv import symrun
+    symrun.install()
+    import skglm.utils.prox_funcs as PF
+    rng = np.random.RandomState(0)
+    n_eval = n_bad = 0
+    worst = None
+    if which == 'prox_log_sum':
+        fn = lambda x, u, eps: PF.prox_log_sum(x, u, eps)
+        phi = lambda t, u, eps: u * np.log1p(np.abs(t) / eps)       # u = alpha * stepsize
+        params = [(a, e) for a in (0.05, 0.3, 1.0, 2.5) for e in (0.1, 0.5, 1.0, 2.0)]
+    elif which == 'prox_05':
+        fn = lambda x, u, eps: PF.prox_05(x, u)
+        phi = lambda t, u, eps: u * np.sqrt(np.abs(t))
+        params = [(u, None) for u in (0.05, 0.3, 1.0, 2.5)]
+    else:
+        fn = lambda x, u, eps: PF.prox_2_3(x, u)
+        phi = lambda t, u, eps: u * np.abs(t) ** (2. / 3.)
+        params = [(u, None) for u in (0.05, 0.3, 1.0, 2.5)]
+    for u, eps in params:
+        xs = np.concatenate([np.linspace(-6, 6, 241), rng.uniform(-6, 6, 60)])
+        grid = np.linspace(-8, 8, 32001)
+        pg = phi(grid, u, eps)
+        for x in xs:
+            try:
+                r = float(fn(float(x), u, eps))
+            except Exception as ex:     # noqa
+                n_bad += 1
+                worst = worst or dict(x=float(x), u=u, eps=eps, detail=f'raised {type(ex).__name__}: {ex}')
+                continue
+            n_eval += 1
+            o_r = 0.5 * (r - x) ** 2 + phi(r, u, eps)
+            og = 0.5 * (grid - x) ** 2 + pg
+            k = int(np.argmin(og))
+            if not np.isfinite(r) or o_r > og[k] + 1e-6 * (1 + abs(og[k])):
+                n_bad += 1
+                if worst is None or (o_r - og[k]) > worst.get('excess', 0):
+                    worst = dict(x=float(x), u=u, eps=eps, prox=r, obj=float(o_r), better=float(grid[k]), better_obj=float(og[k]),
+                                 excess=float(o_r - og[k]))
+    if n_bad:
+        T.failed(f'{which}/minimises-on-grid', f'{n_bad} of {n_eval} grid points are not minimisers; worst: {worst}', strength='N',
+                 replay=dict(fn='contracts.c07:replay_numeric', args=dict(which=which, worst=worst)), model=worst)
+    else:
+        T.ok(f'{which}/minimises-on-grid', note=f'{n_eval} grid evaluations', strength='N', backend='grid')
+
+
+for _w in ('prox_log_sum', 'prox_05', 'prox_2_3'):
+    add_task('C07', f'prox_funcs:{_w}[numeric]', numeric_prox_task, strength='N', which=_w)
+
+
+def replay_numeric(args, model):
+    import skglm.utils.prox_funcs as PF
+    w = args['worst']
+    which = args['which']
+    x, u, eps = w['x'], w['u'], w.get('eps')
+    try:
+        r = float(PF.prox_log_sum(x, u, eps) if which == 'prox_log_sum' else (PF.prox_05(x, u) if which == 'prox_05' else PF.prox_2_3(x, u)))
+    except Exception as ex:     # noqa
+        return dict(confirmed=True, detail=f'raised {type(ex).__name__}: {ex}', inputs=w)
+    phi = (lambda t: u * np.log1p(abs(t) / eps)) if which == 'prox_log_sum' else \
+        ((lambda t: u * np.sqrt(abs(t))) if which == 'prox_05' else (lambda t: u * abs(t) ** (2. / 3.)))
+    o = lambda t: 0.5 * (t - x) ** 2 + phi(t)
+    b = w.get('better', 0.0)
+    return dict(confirmed=bool(not np.isfinite(r) or o(r) > o(b) + 1e-6 * (1 + abs(o(b)))),
+                detail=f'compiled prox={r} obj={o(r)}; better point {b} obj={o(b)}', inputs=w)
